@@ -284,13 +284,15 @@ BIG_F32 = struct.unpack("<f", b"\xff\xff\x7f\x7f")[0]
 
 class DataGen:
     def __init__(self, ch, hints=False, omit_defaults=True, tuples=True, max_len=4,
-                 big_collections=True):
+                 big_collections=True, long_strings=(63, 64, 65, 200, 8192)):
         self.ch = ch
         self.hints = hints
         self.omit_defaults = omit_defaults
         self.tuples = tuples
         self.max_len = max_len
         self.big_collections = big_collections
+        self.long_strings = list(long_strings)
+        self.f32_safe = False
         self.probes = {}
 
     def _p(self, name):
@@ -358,7 +360,7 @@ class DataGen:
             return ch.pick(["é", "中文", "\U0001F600", "a\u0000b", "߿ࠀ￿"])
         if mode == 3:
             self._p("string_long")
-            n = ch.pick([63, 64, 65, 200, 8192])
+            n = ch.pick(self.long_strings)
             return ch.pick(["a", "é", "z"]) * n
         return "".join(chr(32 + ch.draw(95)) for _ in range(ch.draw(6)))
 
@@ -387,10 +389,36 @@ class DataGen:
             return ch.pick([64, 65, 70])
         return 1 + ch.draw(self.max_len)
 
+    def _has_float(self, n, depth=0, seen=()):
+        """Does a value of node n possibly contain a 'float' leaf?"""
+        n = refavro.deref(n)
+        if n.k == "float":
+            return True
+        if depth > 6:
+            return False
+        if n.k == "array":
+            return self._has_float(n.items, depth + 1, seen)
+        if n.k == "map":
+            return self._has_float(n.values, depth + 1, seen)
+        if n.k == "union":
+            return any(self._has_float(b, depth + 1, seen) for b in n.branches)
+        if n.k == "record":
+            if n.name in seen:
+                return False
+            return any(self._has_float(f.type, depth + 1, seen + (n.name,)) for f in n.fields)
+        return False
+
     def datum(self, n, depth=0, in_union=False, union_kinds=()):
         ch = self.ch
         n = refavro.deref(n)
         k = n.k
+        if self.f32_safe and k in ("double", "int", "long"):
+            # below a union one of whose other branches could re-interpret this value as a
+            # 'float': keep the normal form branch-independent (binary32-exact values only)
+            if k == "double":
+                v = self.f32()
+                return v
+            return self.integer(refavro.INT_MIN, refavro.INT_MAX, small=True)
         if k == "null":
             return None
         if k == "boolean":
@@ -440,7 +468,13 @@ class DataGen:
             i = ch.draw(len(n.branches))
             self._p(f"union_branch_{min(i, 3)}")
             b = refavro.deref(n.branches[i])
-            v = self.datum(b, depth + 1, in_union=True, union_kinds=kinds)
+            saved = self.f32_safe
+            if not saved and any(self._has_float(o) for j, o in enumerate(n.branches) if j != i):
+                self.f32_safe = True
+            try:
+                v = self.datum(b, depth + 1, in_union=True, union_kinds=kinds)
+            finally:
+                self.f32_safe = saved
             if self.hints and b.k == "record" and ch.chance(30):
                 if ch.draw(2):
                     self._p("hint_tuple")
